@@ -499,6 +499,47 @@ func run(e *core.Env) {
 					e.Fault("reorder")
 				}
 			case 5:
+				// Wave 14: a run of lost records. The oldest record of the direction arrives, the
+				// next 61..65 are lost, the one after them arrives - the newest number jumps by
+				// 62..66, 64 being the width of the receiver's window - and then the record from
+				// before the gap (or the one after it) turns up again.
+				var run []*simnet.Record
+				if !nearWrap && tp.Chance(1, 3) {
+					for k := 0; k < 70; k++ {
+						send(r.Dir, 1+tp.Intn(40))
+					}
+					noteWire()
+					for _, q := range mainRecords() {
+						if q.Dir == r.Dir && !q.EOF {
+							run = append(run, q)
+						}
+					}
+				}
+				if len(run) >= 68 {
+					k := 61 + tp.Intn(5)
+					before := append([]byte(nil), run[0].Data...)
+					remember(run[0])
+					cn.Deliver(run[0])
+					for _, q := range run[1 : 1+k] {
+						cn.Remove(q)
+					}
+					after := append([]byte(nil), run[1+k].Data...)
+					remember(run[1+k])
+					cn.Deliver(run[1+k])
+					again := before
+					if tp.Chance(1, 4) {
+						again = after
+					}
+					cn.DeliverBytes(dst, again, false)
+					if tp.Chance(1, 3) {
+						cn.DeliverBytes(dst, append([]byte(nil), before...), false)
+					}
+					e.Fault("drop_run_then_replay")
+					if k == 63 {
+						e.Probe("replay_after_a_jump_of_exactly_64")
+					}
+					break
+				}
 				cn.Remove(r)
 				e.Fault("drop")
 			case 6: // inject garbage with a plausible length prefix, or pure noise
